@@ -125,7 +125,7 @@ def check(ctx):
               (("a", ("a", SELF, "at"), "value"),), ())
         cond_sum = ("bool", "and", (not_(("a", SELF, "per_obs")),
                                     ("call", ("n", "hasattr"), (lp, c("sum")), ())))
-        want = ("phi", cond_sum, ("call", ("a", lp, "sum"), (), ()), lp)
+        want = phi_(cond_sum, ("call", ("a", lp, "sum"), (), ()), lp)
         vv = v
         while vv is not None and vv[0] == "phi" and vv[1][0] == "path":
             vv = vv[3]
